@@ -152,6 +152,13 @@ def main(argv=None):
   if a.replay:
     return replay(mod, a.replay)
 
+  # source drift (DESIGN 2.4): the modelled code differs from the tree the models were last validated against --
+  # not a violation; the quick tier explores more cases on such a tree
+  from harness import anchors
+  drifted = anchors.drift(C.REPO)
+  if drifted and tier == 'quick' and pid not in anchors.NO_SCALE and 'VERIF_SCALE' not in os.environ:
+    a.budget_scale *= anchors.SCALE
+
   known = C.load_known()
   lines = []            # VIOLATION / KNOWN-FINDING lines
   violations = 0
@@ -313,6 +320,7 @@ def main(argv=None):
           'traces_validated_against_impl': disagreements_checked,
           'rule': getattr(mod, 'RULE', ''), 'samples': samples[:6], 'engines': ev_engines,
           'known_findings_hit': known_hit,
+          'anchor_drift': drifted[:40], 'budget_scale': a.budget_scale,
           'undischarged': getattr(mod, 'UNDISCHARGED', []),
           'explanation': getattr(mod, 'EXPLANATION', ''),
       },
